@@ -305,13 +305,20 @@ def resolve_item_renames(world):
         if p not in base["adts"]:
             continue
         bs = base["adts"][p]
-        if len(bs) != len(a["variants"]) or cur_shape(a, False) != shape(bs, False):
+        if len(bs) != len(a["variants"]) or any(len(bv[1]) != len(cv["fields"]) for bv, cv in zip(bs, a["variants"])):
             continue
+        # position by position: a field that kept its name may have a configuration-dependent type (the shapes of the confirmed
+        # tree are recorded once); a field with another name must have exactly the recorded type
         fmap = {}
+        same = True
         for bv, cv in zip(bs, a["variants"]):
             for bf, cf in zip(bv[1], cv["fields"]):
                 if bf[0] != cf["name"]:
+                    if _tyn(bf[1]) != _tyn(cf["ty"]):
+                        same = False
                     fmap[cf["name"]] = bf[0]
+        if not same:
+            continue
         if fmap and len(set(fmap.values())) == len(fmap):
             out["fields"][p] = fmap
     # new structs -> positional fields
